@@ -50,7 +50,7 @@ def check_case(ctx, pm, D, order_seed, tmpdir):
     try:
         im = F.build(pm, D, rng)
         t1 = im.dumps()
-    except (TypeError, ValueError) as e:
+    except Exception as e:   # refused to write (any exception): outside this property, judged by C06
         ctx.note_add("write_refused")
         ctx.note("write_refused_example", {"error": "%s: %s" % (type(e).__name__, e), "case": case})
         return False
